@@ -1,5 +1,7 @@
 import Iavl.Model.KV
 import Iavl.Model.PrefixBound
+import Iavl.Lemmas.PrefixView
+import Iavl.Generated.SrcC18Ok
 /-
   C18 — the bundled storage backends implement one ordered-KV contract. `kvStep` is that contract
   (a sorted association list); the four backends are compared with it on generated programs. What
@@ -18,6 +20,20 @@ theorem namespace_is_range (p k : Bz) (hp : p ≠ []) : p <+: k ↔ InRange p k 
 theorem same_length_bound_leaks :
     inPrefixRange cpIncrGo [0x70, 0xff] [0x71] = true ∧ ¬ (([0x70, 0xff] : Bz) <+: ([0x71] : Bz)) :=
   prefix_range_counterexample
+
+/-- **a prefix-namespaced view is the contract on its namespace**: the view's iterator - `prefixDB.Iterator` /
+    `ReverseIterator` hand the parent store `prefix ++ start` and `prefix ++ end`, or the incremented prefix when
+    the end is open - yields, stripped, exactly the pairs the contract's range yields on the sub-map of the keys
+    that carry the prefix: every such pair in range, in order, and nothing of any other namespace - for every
+    non-empty prefix and all keys and bounds, 0xFF runs and bytes that are not UTF-8 included -/
+theorem prefix_view_is_the_contract_on_its_namespace (p : Bz) (hp : p ≠ []) (M : SMapB) (s e : Option Bytes) (rev : Bool) :
+    viewRange p M s e rev = kvRange (subMap p M) s e rev :=
+  viewRange_eq p hp M s e rev
+
+/-- non-vacuity: the namespace `p\xff` next to `q`: the open-ended reverse iteration shows the namespace only -/
+example :
+    viewRange [0x70, 0xff] [([0x70, 0xfe, 1], [9]), ([0x70, 0xff], [1]), ([0x70, 0xff, 0], [2]), ([0x70, 0xff, 0xff], [3]), ([0x71], [4])]
+      none none true = [([0xff], [3]), ([0], [2]), ([], [1])] := by decide
 
 /-- an empty key or a nil value is never stored -/
 theorem no_empty_key_nil_value (s : KVState) (k v : Option Bytes)
